@@ -571,7 +571,7 @@ theorem substitute_sem_removing {α : Type _} (h m h' : NNet) (c : Nat) (hw : h.
         ConsOff h (fun d => S d ∨ d = c) z neg prim an v → ImplMatches h c m sh z neg prim anm vm v →
         ∃ an5 v5 : Nat → α, ConsOff h' (fun j' => S (r.node j')) z neg prim (fun j => an5 (r.node j)) (fun l => v5 (r.line l)) ∧
           (∀ l, l < h.net.lines.size → v5 l = v l) ∧ (∀ d, d < h.net.nodes.size → d ≠ c → an5 d = an d)) := by
-  obtain ⟨h5, map, dang, sh, dn, r, hcore, ct, w5, w', e, sq, ex⟩ :=
+  obtain ⟨h5, map, dang, sh, dn, r, hcore, ct, w5, hdl, w', e, sq, ex⟩ :=
     substitute_removing z neg prim h m h' c (WF.of_wf hw) (WF.of_wf mw) hc hio hcf hr hok he
   have hkeep : keepsAllB h c m = true → h' = { h5 with net := densify h5.net map } := by
     intro hk
@@ -597,7 +597,7 @@ theorem substitute_sem_removing {α : Type _} (h m h' : NNet) (c : Nat) (hw : h.
     subst this
     obtain ⟨an5, v5, c5, b1, b2, _⟩ := ct.backward z neg prim S an v anm vm hH hM
     exact ⟨an5, v5, e.restrict S z neg prim an5 v5 c5, b1, b2⟩
-  · exact ⟨sh, dn, map, ct.shape, ct.des, wf_of_WF w5, ct.mapDn,
+  · exact ⟨sh, dn, map, ct.shape, ct.des hdl, wf_of_WF w5, ct.mapDn hdl,
       fun j x hm => ⟨ct.mapM j x hm, ct.mapGe j x hm, ct.mapLt j x hm, ct.kind' j x hm⟩, ct.mapInj, ct.io', ct.frameNode, ct.lsize,
       fun S hS an' v' hc' => ct.forward z neg prim S hS an' v' hc',
       fun S an v anm vm hH hM => ct.backward z neg prim S an v anm vm hH hM⟩
